@@ -17,6 +17,7 @@ import (
 const (
 	forcedBase = int64(1) << 40
 	entMerged  = int64(-1)
+	entTooMany = int64(-2)
 )
 
 type Config struct {
@@ -265,6 +266,7 @@ func (in *interpreter) runPath(fn *ssa.Function, prefix []int64) (res *PathResul
 	in.clockN = 0
 	in.lastClock = nil
 	in.ufcache = map[string]value{}
+	in.race = nil
 	in.pathNo++
 	in.whys = in.whys[:0]
 	in.model = nil
@@ -523,22 +525,31 @@ func (in *interpreter) choose(n int, why string) int {
 
 // decideValue enumerates the feasible values of t (64-bit term) and forks on them.
 func (in *interpreter) decideValue(t *Term, why string) uint64 {
+	v, _ := in.decideValueMax(t, why, 300, true)
+	return v
+}
+
+// decideValueMax is decideValue with a cap on the number of feasible values; with strict=false
+// it returns ok=false instead of ending the path when the cap is exceeded.
+func (in *interpreter) decideValueMax(t *Term, why string, maxVals int, strict bool) (uint64, bool) {
 	if t.IsConst() {
-		return t.K
+		return t.K, true
 	}
 	in.noteWhy("val:" + why)
 	c := in.ctx
 	if in.pos < len(in.log) {
 		e := in.log[in.pos]
 		in.pos++
+		if e == entTooMany {
+			return 0, false
+		}
 		if e >= forcedBase {
-			return uint64(e - forcedBase)
+			return uint64(e - forcedBase), true
 		}
 		v := uint64(e)
 		in.pc = append(in.pc, c.Eq(t, c.Const(t.W, v)))
-		return v
+		return v, true
 	}
-	const maxVals = 300
 	var vals []uint64
 	excl := c.True
 	name := fmt.Sprintf("cv!%d", t.ID)
@@ -564,6 +575,11 @@ func (in *interpreter) decideValue(t *Term, why string) uint64 {
 		panic(pathEnd{"infeasible", fmt.Sprintf("no feasible value at %s; last decisions %v log %v", why, in.whys[len(in.whys)-n:], in.log[max(0, len(in.log)-8):])})
 	}
 	if len(vals) > maxVals {
+		if !strict {
+			in.log = append(in.log, entTooMany)
+			in.pos++
+			return 0, false
+		}
 		panic(pathEnd{"inconclusive", fmt.Sprintf("more than %d feasible values at %s", maxVals, why)})
 	}
 	sort.Slice(vals, func(a, b int) bool { return vals[a] < vals[b] })
@@ -571,7 +587,7 @@ func (in *interpreter) decideValue(t *Term, why string) uint64 {
 		if vals[0] < uint64(forcedBase) {
 			in.log = append(in.log, forcedBase+int64(vals[0]))
 			in.pos++
-			return vals[0]
+			return vals[0], true
 		}
 	}
 	if in.inMerge > 0 {
@@ -584,7 +600,7 @@ func (in *interpreter) decideValue(t *Term, why string) uint64 {
 	in.log = append(in.log, int64(vals[0]))
 	in.pos++
 	in.pc = append(in.pc, c.Eq(t, c.Const(t.W, vals[0])))
-	return vals[0]
+	return vals[0], true
 }
 
 // symbolicIf handles an If on a symbolic condition.
@@ -614,14 +630,16 @@ func (fr *frame) symbolicIf(instr *ssa.If, c *Term) (bool, continuation) {
 	}
 	// Speculative merge first: executing a (possibly infeasible) arm is sound, its values
 	// simply sit behind an unreachable guard; this avoids two feasibility queries per branch.
-	if in.ex.Cfg.Merge {
+	if in.ex.Cfg.Merge && in.mergeWorthTrying(instr) {
 		mark := len(in.log)
 		wmark := len(in.whys)
 		in.log = append(in.log, entMerged)
 		in.pos++
 		if cont, ok := fr.tryMerge(instr, c); ok {
+			in.mergeSite(instr)[0]++
 			return false, cont
 		}
+		in.mergeSite(instr)[1]++
 		in.log = in.log[:mark]
 		in.pos = mark
 		in.whys = in.whys[:wmark]
@@ -661,3 +679,23 @@ func (e *Explorer) Summary(w *os.File) {
 }
 
 var _ = types.Typ
+
+// Adaptive merging: a branch site whose merge attempts keep failing (parser-like code whose
+// arms produce structurally different results) is forked directly.  Only fresh decisions are
+// affected; replays follow the decision log.
+func (in *interpreter) mergeSite(instr *ssa.If) *[2]int {
+	if in.mergeSites == nil {
+		in.mergeSites = map[*ssa.If]*[2]int{}
+	}
+	st := in.mergeSites[instr]
+	if st == nil {
+		st = &[2]int{}
+		in.mergeSites[instr] = st
+	}
+	return st
+}
+
+func (in *interpreter) mergeWorthTrying(instr *ssa.If) bool {
+	st := in.mergeSite(instr)
+	return st[1] < 4 || st[0]*3 >= st[1]
+}
